@@ -36,6 +36,15 @@ VARIANTS = [
     ("C02", "Realp buffer takes the dtype of the first plane", U, r"AR = np\.zeros\(\(4 \* m, 4 \* n\)\)", "AR = np.zeros((4 * m, 4 * n), dtype=A1.dtype)", "F"),
     ("C02", "Realp buffer with the promoted dtype (equivalent)", U, r"AR = np\.zeros\(\(4 \* m, 4 \* n\)\)",
      "AR = np.zeros((4 * m, 4 * n), dtype=np.result_type(A1, A2, A3, A4))", "S"),
+    ("C02", "real_expand fast path for real input that tests only the i and j planes", U,
+     r"        Q_array = quaternion\.as_float_array\(Q\)  # Shape: \(m, n, 4\)\n",
+     "        Q_array = quaternion.as_float_array(Q)  # Shape: (m, n, 4)\n        if not Q_array[..., 1:3].any():\n            return np.kron(Q_array[..., 0], np.eye(4))\n", "F"),
+    ("C02", "real_expand fast path for real input, all three imaginary planes tested (equivalent)", U,
+     r"        Q_array = quaternion\.as_float_array\(Q\)  # Shape: \(m, n, 4\)\n",
+     "        Q_array = quaternion.as_float_array(Q)  # Shape: (m, n, 4)\n        if not Q_array[..., 1:].any():\n            return np.kron(Q_array[..., 0], np.eye(4))\n", "S"),
+    ("C02", "real_expand reinterprets the buffer in memory order", U,
+     r"        Q_array = quaternion\.as_float_array\(Q\)  # Shape: \(m, n, 4\)\n",
+     "        Q_array = np.ravel(Q, order=\"K\").view(np.float64).reshape(m, n, 4)\n", "F"),
     # ---- C03
     ("C03", "constructor replaces gamma outside (0,1) by the default", S,
      r"self\.gamma = gamma\n        self\.max_iter = max_iter\n        self\.tol = tol\n        self\.verbose = verbose\n        self\.compute_residuals = compute_residuals\n\n",
